@@ -14,12 +14,12 @@ META = {
     "design_ref": "DESIGN.md §7 C16",
     "technique": "Lean 4: hand-written step model of Stack (level register, next_level, memory addressed by next_level-1 truncated "
     "to the address width, transparent synchronous read port) proved to refine a bounded list-stack whose cycle is 'read pops, "
-    "then write pushes, clear empties' for every depth >= 1 and every call history (invariant + simulation); lock-step "
+    "then write pushes, clear empties' for every depth and every call history (invariant + simulation); lock-step "
     "correspondence of the model with the real Stack in pysim",
-    "level_text": "c16_refines, c16_read, c16_peek, c16_read_write, c16_ready, c16_clear, c16_bounded hold for every depth >= 1 "
+    "level_text": "c16_refines, c16_read, c16_peek, c16_read_write, c16_ready, c16_clear, c16_bounded hold for every depth >= 0 "
     "(power of two or not), every data value and every history of simultaneous write/read/peek/clear attempts; the model is "
     "tied to the code by cycle-exact comparison of done bits, returned data, the three ready signals, level and the head "
-    "register over depths 1..9 (thorough 1..17, 31..33), several layouts, directed fill/drain/read+write-at-every-level/clear "
+    "register over depths 0..9 (thorough 0..17, 31..33), several layouts, directed fill/drain/read+write-at-every-level/clear "
     "sequences, random regimes and (thorough) all histories up to length 3 for depths 1..3",
     "level_note": "trusted: Lean kernel with axioms propext/Classical.choice/Quot.sound; Amaranth semantics, amaranth.lib.memory "
     "(transparent sync read port; out-of-range address: write dropped, read gives 0, transparency still forwards) and pysim; "
@@ -43,6 +43,13 @@ def _sim(depth: int, widths: tuple) -> CompSim:
 
 
 def impl(case: Case) -> list[str]:
+    try:
+        return _impl(case)
+    except Exception as e:  # noqa: BLE001 - an exception of the real code is an observation
+        return [f"raise {type(e).__name__}"] + ["-"] * len(case.ops)
+
+
+def _impl(case: Case) -> list[str]:
     d = case.desc
     sim = _sim(d["depth"], tuple(d["layout"]))
     cycs = [parse(line) for line in case.ops]
@@ -61,6 +68,8 @@ def impl(case: Case) -> list[str]:
 def monitor(case: Case, out: list[str]):
     """Property sentences on the implementation's observations, against a reference Python list (top = last)."""
     depth = case.desc["depth"]
+    if out[0] != "ok":
+        return f"the component does not elaborate/simulate: {out[0]}"
     st: list[int] = []
     for k, (line, obs) in enumerate(zip(case.ops, out[1:])):
         w, r, p, c = parse(line)
@@ -96,6 +105,8 @@ def monitor(case: Case, out: list[str]):
 def nontrivial(case: Case, out: list[str]) -> bool:
     """read and write executed in one cycle on a stack with >= 1 element, or full and empty both reached, or clear with a write"""
     depth = case.desc["depth"]
+    if out[0] != "ok":
+        return False
     full = empty_after = False
     for obs in out[1:]:
         f = fields(obs)
@@ -138,7 +149,7 @@ def _configs(ctx: Check):
     rng = ctx.rng("cfg")
     layouts = [(1,), (2,), (4,), (8,), (3, 5), (1, 1, 2), (33,)]
     depths = ctx.pick(list(range(1, 10)), list(range(1, 18)) + [31, 32, 33])
-    cfgs = []
+    cfgs = [(0, (4,))]  # the real Stack elaborates with depth 0: nothing is ever ready
     for d in depths:
         ls = [layouts[(d + k) % len(layouts)] for k in range(ctx.pick(1, 2))] + [rng.choice(layouts)]
         for lay in dict.fromkeys(ls):
